@@ -245,64 +245,70 @@ func c14app(st *c14stats) (out []*c12result) {
 		keyset["auth"][string(append([]byte{0x01}, chain.Addr(12)...))] = true // never written
 		keyset["pos"][string(append([]byte{0x21}, chain.Addr(12)...))] = true
 		latest := d.Height
-		for _, name := range []string{"auth", "pos"} {
-			for k := range keyset[name] {
-				for height := int64(0); height <= latest+1; height++ {
-					for _, prove := range []bool{false, true} {
-						atomic.AddInt64(&st.queries, 1)
-						res := d.App.Query(abci.RequestQuery{Path: "/store/" + name + "/key", Data: []byte(k), Height: height, Prove: prove})
-						hh := height
-						if height == 0 {
-							hh = latest // documented default at the BaseApp level
-						}
-						if prove && hh <= 1 {
-							if res.Code == 0 || res.Value != nil {
-								fail("proof-at-height<=1-served", "store %s height %d with proof: code %d value %X (documented: refused)", name, height, res.Code, res.Value)
+		for _, phase := range []string{"", "|after-restart"} {
+			if phase != "" {
+				d.Restart() // a node re-created over its database answers the same before it commits again
+			}
+			fail := func(sig, f string, a ...interface{}) { fail(sig+phase, f, a...) }
+			for _, name := range []string{"auth", "pos"} {
+				for k := range keyset[name] {
+					for height := int64(0); height <= latest+1; height++ {
+						for _, prove := range []bool{false, true} {
+							atomic.AddInt64(&st.queries, 1)
+							res := d.App.Query(abci.RequestQuery{Path: "/store/" + name + "/key", Data: []byte(k), Height: height, Prove: prove})
+							hh := height
+							if height == 0 {
+								hh = latest // documented default at the BaseApp level
 							}
-							continue
-						}
-						if res.Height != hh && res.Code == 0 {
-							fail("response-height", "store %s key %X height %d: response height %d, expected %d", name, k, height, res.Height, hh)
-							continue
-						}
-						if !rmRetained(hh, latest, pruning) {
-							if res.Value != nil || (res.Proof != nil && len(res.Proof.Ops) > 0) {
-								fail("unreadable-height-served", "store %s key %X height %d (latest %d): value/proof served", name, k, hh, latest)
-							}
-							continue
-						}
-						var want []byte
-						present := false
-						for _, kv := range snaps[hh][name] {
-							if string(kv.K) == k {
-								want, present = kv.V, true
-							}
-						}
-						if res.Code != 0 || !bytes.Equal(res.Value, want) {
-							fail("wrong-value", "store %s key %X height %d prove=%v: code %d value %X, committed %X", name, k, hh, prove, res.Code, res.Value, want)
-							continue
-						}
-						if !prove {
-							continue
-						}
-						atomic.AddInt64(&st.proofs, 1)
-						kp := keyPath(name, []byte(k))
-						var err error
-						if present {
-							err = prt.VerifyValue(res.Proof, hashes[hh], kp, want)
-						} else {
-							err = prt.VerifyAbsence(res.Proof, hashes[hh], kp)
-						}
-						if err != nil {
-							fail("proof-does-not-verify", "store %s key %X height %d present=%v: %v", name, k, hh, present, err)
-							continue
-						}
-						for o := int64(1); o <= latest; o++ {
-							if o == hh || bytes.Equal(hashes[o], hashes[hh]) {
+							if prove && hh <= 1 {
+								if res.Code == 0 || res.Value != nil {
+									fail("proof-at-height<=1-served", "store %s height %d with proof: code %d value %X (documented: refused)", name, height, res.Code, res.Value)
+								}
 								continue
 							}
-							if present && prt.VerifyValue(res.Proof, hashes[o], kp, want) == nil || !present && prt.VerifyAbsence(res.Proof, hashes[o], kp) == nil {
-								fail("proof-verifies-against-other-height", "store %s key %X: proof for height %d verifies against the app hash of height %d", name, k, hh, o)
+							if res.Height != hh && res.Code == 0 {
+								fail("response-height", "store %s key %X height %d: response height %d, expected %d", name, k, height, res.Height, hh)
+								continue
+							}
+							if !rmRetained(hh, latest, pruning) {
+								if res.Value != nil || (res.Proof != nil && len(res.Proof.Ops) > 0) {
+									fail("unreadable-height-served", "store %s key %X height %d (latest %d): value/proof served", name, k, hh, latest)
+								}
+								continue
+							}
+							var want []byte
+							present := false
+							for _, kv := range snaps[hh][name] {
+								if string(kv.K) == k {
+									want, present = kv.V, true
+								}
+							}
+							if res.Code != 0 || !bytes.Equal(res.Value, want) {
+								fail("wrong-value", "store %s key %X height %d prove=%v: code %d value %X, committed %X", name, k, hh, prove, res.Code, res.Value, want)
+								continue
+							}
+							if !prove {
+								continue
+							}
+							atomic.AddInt64(&st.proofs, 1)
+							kp := keyPath(name, []byte(k))
+							var err error
+							if present {
+								err = prt.VerifyValue(res.Proof, hashes[hh], kp, want)
+							} else {
+								err = prt.VerifyAbsence(res.Proof, hashes[hh], kp)
+							}
+							if err != nil {
+								fail("proof-does-not-verify", "store %s key %X height %d present=%v: %v", name, k, hh, present, err)
+								continue
+							}
+							for o := int64(1); o <= latest; o++ {
+								if o == hh || bytes.Equal(hashes[o], hashes[hh]) {
+									continue
+								}
+								if present && prt.VerifyValue(res.Proof, hashes[o], kp, want) == nil || !present && prt.VerifyAbsence(res.Proof, hashes[o], kp) == nil {
+									fail("proof-verifies-against-other-height", "store %s key %X: proof for height %d verifies against the app hash of height %d", name, k, hh, o)
+								}
 							}
 						}
 					}
@@ -383,7 +389,7 @@ func C14(tier string) int {
 	run.Set("jobs", desc)
 	run.Set("rule", "for every write history: after the last commit and in the middle of the last block (uncommitted writes applied), every store x every key of {k1,k2,k,k1\\x00,k3,k0,zz} x every height 0..latest+1 x prove in {false,true} through rootmulti.Query('/<store>/key'); value compared with the model snapshot of the height, proof verified with DefaultProofRuntime against the app hash of that height and required to fail against every other height's different hash, for a different value and for the opposite presence; distinct_nontrivial = proofs verified")
 	run.Sample("N=2 pruning=(0,2) v1[k1=a | k2=a] v2[del k1 | -] v3[k1=b | k1=a;del k2]: store s1 key \"k1\" height 2 prove=true -> absence proof against app hash of height 2")
-	run.Assume("application level: a 5-block chain history under 3 pruning options, every account/validator key ever stored (+ never-written ones) x heights 0..latest+1 x prove through BaseApp.Query(/store/<name>/key): height 0 = latest, proof refused at height <= 1, values against the raw dump recorded at that height, proofs against the app hash returned by that Commit",
+	run.Assume("application level: a 5-block chain history under 3 pruning options, every account/validator key ever stored (+ never-written ones) x heights 0..latest+1 x prove through BaseApp.Query(/store/<name>/key): height 0 = latest, proof refused at height <= 1, values against the raw dump recorded at that height, proofs against the app hash returned by that Commit; all of it repeated on a node re-created over the same database before it commits again",
 		"only /key queries are judged (/subspace reads the working tree by construction)", "for height 0 the documented default applies and the response is judged against the height it reports", "retention rule as in C12")
 	_ = crashdb.New
 	return run.Finish()
